@@ -32,6 +32,10 @@ ALPH += ["\u00b2", "\uff11", "\uff46", "\u338f", "fi"]
 COMPAT = ["\ufb01", "\u00b2", "\uff11", "\uff46", "\u338f", "\u01c6", "\ufb00"]   # changed by NFKC, untouched by NFC
 
 
+# purposes that differ only by padding-like suffixes (a KDF that pads or truncates its inputs confuses them)
+NEAR_PURPOSES = [["p\x00", 16], ["transit", 32], ["transit\x00", 32], ["transit\x00\x00", 32], ["", 16], ["\x00", 16]]
+
+
 @st.composite
 def cases(draw, tier="quick"):
     P = {}
@@ -146,7 +150,7 @@ def run_case(P):
     def at_stable(rec):
         for i in range(2):
             out = []
-            for (p, n) in P["purposes"] + [[P["compat_purposes"][0], 16], [P["compat_purposes"][1], 16]] + [["p", 16], ["q", 16]]:
+            for (p, n) in P["purposes"] + [[P["compat_purposes"][0], 16], [P["compat_purposes"][1], 16]] + NEAR_PURPOSES + [["p", 16], ["q", 16]]:
                 try:
                     out.append(rec.ws[i].derive_key(p, n))
                 except NoKeyError:
@@ -191,7 +195,7 @@ def run_case(P):
                 res.violate("derive", "derive_key failed after key agreement: %r %r" % (d0, d1),
                             input_class="derive-key-failed")
             else:
-                plist = P["purposes"] + [[P["compat_purposes"][0], 16], [P["compat_purposes"][1], 16]] + [["p", 16], ["q", 16]]
+                plist = P["purposes"] + [[P["compat_purposes"][0], 16], [P["compat_purposes"][1], 16]] + NEAR_PURPOSES + [["p", 16], ["q", 16]]
                 for j, (p, n) in enumerate(plist):
                     if d0[j] != d1[j] or len(d0[j]) != n:
                         res.violate("derive", "derive_key(%r,%d) differs between sides or has wrong length" % (p, n),
